@@ -252,6 +252,8 @@ func (b *Builder) startContainer() (*container, error) {
 			Cloneflags:  cloneFlag,
 			UidMappings: uidMap,
 			GidMappings: gidMap,
+			// a privileged builder keeps setgroups usable inside, so that the init can drop the builder's supplementary groups
+			GidMappingsEnableSetgroups: os.Geteuid() == 0,
 			AmbientCaps: []uintptr{
 				unix.CAP_SYS_ADMIN,
 				unix.CAP_SYS_RESOURCE,
